@@ -193,12 +193,21 @@ def Env.addrOf (e : Env) : PubKey → Option Addr
   | .single _ b => (e.addrs.find? (·.1 == b)).map (·.2)
   | .multi ks _ thr => some (shortHash ((sortBytes ks).flatten ++ be32 thr))
 
+/-- the encoding of the identity of G2 (0xc0 followed by 95 zero bytes) as a signature token -/
+def identitySig : String := "identity"
+
+/-- the aggregate check of a multi key: the signature is the aggregate formed over exactly the enabled
+members — or, when NO member is enabled, the identity: kyber aggregates the keys of an empty mask to
+the identity of G1, and `e(identity, H(m)) = e(g, identity)` holds for every message. -/
+def Env.aggregateValid (e : Env) (ks : List Bytes) (bits : List Bool) (c : Content) (sig : String) : Bool :=
+  e.aggs.contains (sig, c, ks, bits) || ((enabled ks bits).isEmpty && sig == identitySig)
+
 /-- `VerifyBytes` per key type. Multi key: aggregate valid ∧ (threshold = 0 ∨ enabled ≥ threshold),
 exactly `BLS12381MultiPublicKey.VerifyBytes`. -/
 def Env.verifies (e : Env) (pk : PubKey) (c : Content) (sig : String) : Bool :=
   match pk with
   | .single _ b => e.signed.contains (b, c, sig)
-  | .multi ks bits thr => e.aggs.contains (sig, c, ks, bits) && (thr == 0 || decide ((enabled ks bits).length ≥ thr))
+  | .multi ks bits thr => e.aggregateValid ks bits c sig && (thr == 0 || decide ((enabled ks bits).length ≥ thr))
 
 /-- an aggregate exists only over signatures its members produced -/
 def Env.WF (e : Env) : Prop :=
@@ -295,6 +304,9 @@ structure Cfg where
   minStakeV : Nat := 0
   minStakeD : Nat := 0
   fee : Kind → Nat := fun _ => 0
+  /-- `CheckSignature` refuses a multisig key with no enabled signer (repair dc0ba0c; which value the
+  drivers run is read from the regenerated source fact `Gen.Auth.multisigSignerGuardInPlace`) -/
+  requireSigner : Bool := true
 
 /-- pool id arithmetic of `fsm/key.go` (MaxUint16 = 65535) -/
 def holdingPool (ch : Nat) : Nat := ch + 65535 / 4
@@ -436,13 +448,20 @@ def authenticates (e : Env) (tx : Tx) (pk : PubKey) : Except String Unit :=
     if !pk.isEth then .error eInvalidSignature else verifyRLP e tx pk
   else if e.verifies pk tx.content tx.sig then .ok () else .error eInvalidSignature
 
-/-- `CheckSignature`: authenticate, derive the address from the VERIFIED key, match it against the list -/
-def checkSignature (e : Env) (tx : Tx) (auth : List Addr) : Except String Addr :=
+/-- a multisig key under which nobody is marked as signer -/
+def PubKey.noSigner : PubKey → Bool
+  | .single _ _ => false
+  | .multi ks bits _ => (enabled ks bits).isEmpty
+
+/-- `CheckSignature`: (with the guard) refuse a multisig key naming no signer; authenticate; derive the
+address from the VERIFIED key; match it against the list -/
+def checkSignature (guard : Bool) (e : Env) (tx : Tx) (auth : List Addr) : Except String Addr :=
   if tx.sig = "-" then .error eEmptySignature else
   match tx.pk with
   | none => .error eInvalidPublicKey
   | some pk =>
-    if !pk.wf then .error eInvalidPublicKey else
+    if !pk.wf then .error eInvalidPublicKey
+    else if guard && pk.noSigner then .error eInvalidSignature else
     match authenticates e tx pk with
     | .error err => .error err
     | .ok () =>
@@ -641,7 +660,7 @@ def applyTx (e : Env) (cfg : Cfg) (st : State) (tx : Tx) (newId : Bytes) : Excep
     match authorized e st m with
     | .error err => .error err
     | .ok auth =>
-      match checkSignature e tx auth with
+      match checkSignature cfg.requireSigner e tx auth with
       | .error err => .error err
       | .ok signer =>
         if tx.content.memo = rlpV2Memo && (tx.content.nonce < st.nonce signer || tx.content.nonce = maxUint64) then
